@@ -16,7 +16,7 @@ from ..collect import guarded
 
 import itertools
 
-from .. import treecheck, treefam
+from .. import native_exit, treecheck, treefam
 
 PROPERTY = "C01"
 LEVEL = "exploration"
@@ -38,6 +38,7 @@ SHARD_TIMEOUT = {"quick": 300, "thorough": 1500}
 
 
 def all_cases(tier: str, seed: int):  # noqa: ANN201
+    yield from native_exit.cases()
     yield from treecheck.cases("c01", tier, seed, 4000, 60000, extra=lambda: itertools.chain(treefam.empty_exit_spawn(), treefam.aexit_cancel_sweep(), treefam.drain_spawn()))
 
 
@@ -45,18 +46,32 @@ def shards(tier: str, seed: int) -> list[dict]:
     return treecheck.shards(tier, seed)
 
 
+def judge(case: dict, col) -> None:  # noqa: ANN001
+    if case.get("t") == "native_exit":
+        res = native_exit.execute(case)
+        col.case(res["sig"], True, sample={"case": case, "observed": res["log_tail"]})
+        for k, v in res["windows"].items():
+            col.count("window:" + k, v)
+
+        for _p, clause, detail in res["viol"]:
+            col.violation(clause, detail, case)
+    else:
+        treecheck.judge(PROPERTY, case, col)
+
+
 def run_shard(desc: dict, col) -> None:  # noqa: ANN001
     for i, case in enumerate(all_cases(desc["tier"], desc["seed"])):
         if i % desc["of"] == desc["shard"]:
-            guarded(col, case, treecheck.judge, PROPERTY, case, col)
+            guarded(col, case, judge, case, col)
 
 
 def replay(case: dict, col) -> None:  # noqa: ANN001
-    guarded(col, case, treecheck.judge, PROPERTY, case, col)
+    guarded(col, case, judge, case, col)
 
 
 def finish(col, tier: str) -> None:  # noqa: ANN001
     for k in ("nontrivial:aexit-with-unfinished-children", "window:spawn_after_group_cancelled",
-              "nontrivial:member-failed"):  # fmt: skip
+              "nontrivial:member-failed",
+              "window:child_spawned_while_host_natively_cancelled_in_aexit"):  # fmt: skip
         if not col.counters.get(k):
             col.inconclusive_because(f"deciding window never reached: {k}")
